@@ -27,7 +27,7 @@ MODS = ["amr_kitchen.mandoline.mandoline"]
 def bounds(tier):
     # (positions: every lattice point and, beside each interior one, +-1 ulp and +-1e-9 finest cell)
     return {"levels": [1, 2, 3], "positions": "all lattice points (quarter of finest cell)", "normals": [0, 1, 2],
-            "field_lists": ["A", "A C G", "G grid_level", "all", "G A (not header order)", "C grid_level A"], "limit": "None, 0..finest", "modes": ["serial", "parallel"]}
+            "field_lists": ["A", "A C G", "G grid_level", "all", "G A (not header order)", "C grid_level A", "C G A and G A H C (rotations)"], "limit": "None, 0..finest", "modes": ["serial", "parallel"]}
 
 
 def rot(mesh, r):
@@ -163,7 +163,8 @@ def run_deep(case, workdir, rec):
     rec.sample({"desc": {k: v for k, v in desc.items() if k != "levels"}, "normal": n, "deep": True})
 
 
-FIELD_LISTS = [["A"], ["A", "C", "G", "H"], ["G", "grid_level"], ["all"], ["G", "A"], ["C", "grid_level", "A"]]
+FIELD_LISTS = [["A"], ["A", "C", "G", "H"], ["G", "grid_level"], ["all"], ["G", "A"], ["C", "grid_level", "A"],
+               ["C", "G", "A"], ["G", "A", "H", "C"]]      # (rotations: permutations that are not their own inverse)
 
 
 def check_slice(rec, sub, sm, ref, m, L, fl, out):
